@@ -343,7 +343,9 @@ int main(int argc, char **argv) {
 			
 			// Let's assume that the wrapped process plus the chopped off
 			// delimiters won't be more than twice the input we give it.
-			sentence.reserve(delimiters.size() * 2 * options.column_width);
+			// With a huge width (meaning: do not wrap) that would be gigabytes per
+			// line, so cap the guess per piece.
+			sentence.reserve(delimiters.size() * 2 * std::min<size_t>(options.column_width, 4096));
 
 			try {
         DelimiterList::forward_iterator delimit(delimiters);
